@@ -167,6 +167,42 @@ def m_rotate(left):
     return f
 
 
+def m_minmax(is_min):
+    def f(I, st, args, dest_ty, *r):
+        a, b = _deref(I, st, args[0]), _deref(I, st, args[1])
+        if a.kind != "int" or b.kind != "int" or a.ty != b.ty:
+            return m_top(I, st, args, dest_ty)
+        if a.is_const() and b.is_const():
+            return IntV.const(a.ty, min(a.lo, b.lo) if is_min else max(a.lo, b.lo))
+        lo = min(a.lo, b.lo) if is_min else max(a.lo, b.lo)
+        hi = min(a.hi, b.hi) if is_min else max(a.hi, b.hi)
+        if (is_min and a.hi <= b.lo) or (not is_min and a.lo >= b.hi):
+            return a
+        if (is_min and b.hi <= a.lo) or (not is_min and b.lo >= a.hi):
+            return b
+        return IntV(a.ty, bits_dep_all(a.w, a.deps() | b.deps()), lo, hi, None, False, a.lineage | b.lineage)
+    return f
+
+
+def m_bitcount(kind):
+    def f(I, st, args, dest_ty, *r):
+        a = _deref(I, st, args[0])
+        if a.kind != "int":
+            return m_top(I, st, args, dest_ty)
+        w = a.w
+        if a.is_const():
+            v = a.lo & ((1 << w) - 1)
+            if kind == "ones":
+                res = bin(v).count("1")
+            elif kind == "tz":
+                res = w if v == 0 else (v & -v).bit_length() - 1
+            else:
+                res = w - v.bit_length()
+            return IntV.const("u32", res)
+        return IntV("u32", bits_dep_all(32, a.deps()), 0, w, None, False, a.lineage)
+    return f
+
+
 def m_to_bytes(little):
     """iN::to_le_bytes / to_be_bytes: byte k is bits 8k..8k+7 of the value"""
     def f(I, st, args, dest_ty, *r):
@@ -1031,6 +1067,11 @@ MODELS = [(re.compile(p), f) for p, f in [
     (r"num::<impl [iu]\w+>::saturating_add$", m_saturating("Add")),
     (r"num::<impl u\w+>::rotate_left$", m_rotate(True)),
     (r"num::<impl u\w+>::rotate_right$", m_rotate(False)),
+    (r"cmp::Ord::min$|cmp::min$", m_minmax(True)),
+    (r"cmp::Ord::max$|cmp::max$", m_minmax(False)),
+    (r"num::<impl [iu]\w+>::count_ones$", m_bitcount("ones")),
+    (r"num::<impl [iu]\w+>::trailing_zeros$", m_bitcount("tz")),
+    (r"num::<impl [iu]\w+>::leading_zeros$", m_bitcount("lz")),
     (r"::wrapping_mul$", m_wrapping("Mul")),
     (r"convert::TryFrom<.*>>::try_from$|convert::TryInto<.*>>::try_into$|num::<impl (std::|core::)?convert::TryFrom<[iu]\w+> for [iu]\w+>::try_from$", m_try_from),
     (r"::wrapping_add$", m_wrapping("Add")),
